@@ -238,3 +238,81 @@ def _prev_assign(fn, name, before):
             if best is None or st.lineno > best.lineno:
                 best = st
     return best
+
+
+# --------------------------------------------------------------------------- distinctness by construction
+
+
+def rule_distinct_sources(ctx: Ctx) -> None:
+    """distinct.source: (a) the array iso_finder returns is, at every assignment, one whole automorph_check(...) result (a set of
+    flattened matrices, input first), a slice of such an array or its emitter_sorted re-ordering — gluing two separately
+    de-duplicated batches together (concatenate / vstack / append / +) repeats matrices found in both; (b) an explorer that
+    de-duplicates with check_isomorphism before appending tests the candidate against the whole list it appends to, not a
+    part of it."""
+    repo = ctx.repo
+    m = repo.module(RELABEL)
+    fn = repo.anchor(RELABEL, "iso_finder")
+    ctx.touch(m, fn)
+    adj_param = func_params(fn)[0]
+    returned = set()
+    for r in ast.walk(fn):
+        if isinstance(r, ast.Return) and r.value is not None:
+            v = r.value.elts[0] if isinstance(r.value, ast.Tuple) else r.value
+            while isinstance(v, ast.Subscript):
+                v = v.value
+            if isinstance(v, ast.Name):
+                returned.add(v.id)
+    if not returned:
+        raise AnalysisError("iso_finder: returned array name not found")
+
+    def whole(v: ast.AST) -> bool:
+        if isinstance(v, ast.Call) and call_name(v) == "automorph_check" and v.args and norm(v.args[0]) == adj_param:
+            return True
+        if isinstance(v, ast.Subscript) and isinstance(v.slice, ast.Slice) and isinstance(v.value, ast.Name) and v.value.id in returned:
+            return True
+        if isinstance(v, ast.Name) and v.id in returned:
+            return True
+        if isinstance(v, ast.Call) and call_name(v) in ("np.array", "np.asarray") and v.args and isinstance(v.args[0], ast.ListComp):
+            lc = v.args[0]
+            it = lc.generators[0].iter
+            return isinstance(it, ast.Call) and call_name(it) == "emitter_sorted" and it.args and whole(it.args[0])
+        return False
+
+    n = 0
+    for a in ast.walk(fn):
+        if isinstance(a, ast.Assign) and len(a.targets) == 1 and isinstance(a.targets[0], ast.Name) and a.targets[0].id in returned:
+            n += 1
+            if whole(a.value):
+                ctx.ok("distinct.source", m, a, what="iso_finder result: one de-duplicated batch / slice / re-ordering")
+            else:
+                ctx.fail("distinct.source", m, a,
+                         f"iso_finder builds its result as `{short(a.value, 90)}`: that is not one whole automorph_check batch (nor a slice / "
+                         f"emitter_sorted re-ordering of one); matrices that occur in both parts are returned twice, and more matrices than there "
+                         f"are distinct relabellings can come back", func="iso_finder", construct="iso_finder: result glued from separately de-duplicated batches")
+    if n == 0:
+        raise AnalysisError("iso_finder: no assignment of the returned array")
+    # (b) membership tests before append
+    sites = 0
+    for f in [x for x in m.tree.body if isinstance(x, ast.FunctionDef)]:
+        for c in calls_in(f):
+            if call_name(c) != "check_isomorphism" or len(c.args) < 2:
+                continue
+            iff = parent(c)
+            while iff is not None and not isinstance(iff, (ast.If, ast.FunctionDef)):
+                iff = parent(iff)
+            if not isinstance(iff, ast.If):
+                continue
+            cand = norm(c.args[0])
+            apps = [x for x in ast.walk(iff) if isinstance(x, ast.Call) and call_attr(x) == "append" and x.args and norm(x.args[0]) == cand]
+            for ap in apps:
+                sites += 1
+                ctx.touch(m, f)
+                if norm(c.args[1]) == norm(ap.func.value):
+                    ctx.ok("distinct.source", m, c, what=f"{f.name}: candidate tested against the whole `{norm(ap.func.value)}`")
+                else:
+                    ctx.fail("distinct.source", m, c,
+                             f"{f.name} appends `{cand}` to `{norm(ap.func.value)}` after testing it only against `{short(c.args[1], 60)}`: a graph "
+                             f"already in the part that is not looked at is appended again", func=f.name,
+                             construct=f"{f.name}: duplicate test against part of {norm(ap.func.value)}")
+    if sites == 0:
+        raise AnalysisError("relabel_module: no check_isomorphism-guarded append found")
